@@ -20,7 +20,8 @@ META = {
             "read-only and still open. (4) every store entry point (item assignment of a stored and of a new point, load_recipes of "
             "stored and new recipes, direct recipe assignment, update(), every metadata setter, dump()) is evaluated on a model file "
             "system for a read-only, a closed writable and a closed read-only EKO, in a fresh session and after the items were looked "
-            "up (present in the in-memory caches): each attempt raises ReadOnlyOperator / ClosedOperator and every file is unchanged.",
+            "up (present in the in-memory caches): each attempt raises ReadOnlyOperator / ClosedOperator and every file is unchanged."
+            " (5) EKO.read evaluated for the archive, the archive with a destination and the extracted folder: the object is read-only and a store raises and touches nothing; close() of read-only / closed EKOs performs no write, replace or remove outside the working directory.",
     "note": "Structural: the byte-for-byte statement follows because no write to the archive or its working directory can be "
             "reached without passing the guard, and the guard's truth table is exhaustive. OS behaviour is not modelled.",
     "technique": "guard-dominance / who-may-call rules on the AST + exhaustive partial evaluation of the guard's truth table + partial evaluation of every store entry point on a model file system",
